@@ -6,6 +6,8 @@ Enumerates feature configurations of /repo's working tree, builds the digest pro
 compares its output with the output under the bare base configuration (`std` or `libm` alone).
   * a configuration that does not build            -> violation  "feature-config|does-not-build"
   * a configuration whose digest differs from base -> violation  "feature-config|behaviour-changed"
+  * a feature-only sweep of the digest program (`featcheck` lines: vek's image::Pixel impls against the image crate's own
+    Rgb/Rgba pixels over a pixel alphabet) reports a mismatch -> violation "feature-config|feature-item-misbehaves"
 The per-configuration results are handed to the c20 binary (env VX_C20_FEATURES), which owns the
 evidence file, the known-findings matching and the exit code (0 held / 1 VIOLATION / 2 machinery).
 
@@ -72,7 +74,14 @@ def build_and_run(job):
     res["compiled_for_matches_request"] = compiled_for == fl
     if compiled_for != fl:
         res["compiled_for"] = compiled_for
-    res["lines"] = lines[1:]
+    # feature-only observations: verdict lines of the exhaustive sweeps the digest program runs over items that exist only under
+    # a feature (image::Pixel impls vs the image crate's own pixel types); not part of the comparison with the bare configuration
+    fc = [l for l in lines[1:] if l.startswith("featcheck ")]
+    res["featchecks"] = len(fc)
+    res["featcheck_evaluations"] = sum(int(l.rsplit("n=", 1)[1]) for l in fc if " = ok n=" in l)
+    res["featcheck_fail"] = [l[:700] for l in fc if " = ok n=" not in l][:6]
+    res["featcheck_expected"] = ("image" in feats) and ("rgb" in feats or "rgba" in feats)
+    res["lines"] = [l for l in lines[1:] if not l.startswith("featcheck ")]
     res["sha"] = hashlib.sha256("\n".join(res["lines"]).encode()).hexdigest()[:16]
     return res
 
